@@ -230,46 +230,66 @@ func c02(r *core.Run) {
 
 	// ---- N1 --------------------------------------------------------------
 	{
+		// typestate: 0 nothing stored, 1 stored once, 2 stored more than once, 3 refused (took the
+		// not-started or the queue-closed edge before anything was stored)
 		fn := a.Enqueue
 		fname := core.FuncName(fn)
+		refusalOf := func(iff *ssa.If, succ int) string {
+			d := describeCond(edgeCond{iff, succ})
+			if strings.HasPrefix(d, "call:sync/atomic.LoadInt32!=") || strings.HasPrefix(d, "call:(*sync/atomic.Int32).Load!=") {
+				return "service not started: submission refused (C03.S5)"
+			}
+			if d == a.WorkQueue.String()+"==nil" {
+				return "work queue closed (Shutdown in progress): submission refused (C03.N0)"
+			}
+			return ""
+		}
 		fl := &core.Flow{Fn: fn, Entry: core.StateSet(0).Add(0), Inline: p.IsPrivateHelper}
 		fl.Transfer = func(in ssa.Instruction, s int) core.StateSet {
 			if st, ok := in.(*ssa.Store); ok {
 				if f, ok := core.FieldOf(st.Addr); ok {
 					if (f == a.WQueue && !freshBase(st.Addr, st)) || f == a.WorkQueue {
-						if s < 2 {
-							s++
+						switch s {
+						case 0, 3:
+							s = 1
+						default:
+							s = 2
 						}
 					}
 				}
 			}
 			return core.StateSet(0).Add(s)
 		}
+		refusals := map[string]ssa.Instruction{}
+		fl.Branch = func(iff *ssa.If, succ int, s int) (int, bool) {
+			if why := refusalOf(iff, succ); why != "" {
+				refusals[why] = iff
+				if s == 0 {
+					return 3, true
+				}
+			}
+			return s, true
+		}
 		res := fl.Run()
+		for why, at := range refusals {
+			r.ExemptObl("N1", fname, "refusal-edge:"+strings.SplitN(why, ":", 2)[0], p.InstrPos(at), why)
+		}
 		for _, ret := range core.Returns(fn) {
 			st := res.Before[ret]
 			if st.Empty() {
 				continue
 			}
 			var conds []string
-			refusal := ""
 			for _, ed := range dominatingEdges(ret) {
-				d := describeCond(ed)
-				conds = append(conds, d)
-				if strings.HasPrefix(d, "call:sync/atomic.LoadInt32!=") || strings.HasPrefix(d, "call:(*sync/atomic.Int32).Load!=") {
-					refusal = "service not started: submission refused (C03.S5)"
-				}
-				if d == a.WorkQueue.String()+"==nil" {
-					refusal = "work queue closed (Shutdown in progress): submission refused (C03.N0)"
-				}
+				conds = append(conds, describeCond(ed))
 			}
 			switch {
 			case st.Only(1):
 				r.OK("N1", fname, "return:"+returnDesc(ret, conds), p.InstrPos(ret), "callback stored exactly once on every path to this return")
-			case st.Only(0) && refusal != "":
-				r.ExemptObl("N1", fname, "return:"+returnDesc(ret, conds), p.InstrPos(ret), refusal)
+			case !st.Has(0) && !st.Has(2):
+				r.OK("N1", fname, "return:"+returnDesc(ret, conds), p.InstrPos(ret), "every path to this return either stored the callback exactly once or took a documented refusal edge")
 			default:
-				r.Bad("N1", fname, "return:"+returnDesc(ret, conds), p.InstrPos(ret), fmt.Sprintf("callback stored %v times on some path to this return: an accepted submission is dropped or duplicated", st.List()))
+				r.Bad("N1", fname, "return:"+returnDesc(ret, conds), p.InstrPos(ret), fmt.Sprintf("callback stored %v times on some path to this return (0 = nothing stored and no refusal edge, 2 = more than once): an accepted submission is dropped or duplicated", st.List()))
 			}
 		}
 	}
@@ -352,11 +372,12 @@ func c02Drain(r *core.Run, a *svcAnchors) {
 	}
 	startsAt0, stepOne := false, true
 	nBack := 0
+	loop := naturalLoop(phi.Block())
 	for i, ed := range phi.Edges {
 		pred := phi.Block().Preds[i]
 		if c, ok := core.ConstInt(ed); ok {
-			if c == 0 && !reachesBlock(phi.Block(), pred) {
-				startsAt0 = true
+			if c == 0 && !loop[pred] {
+				startsAt0 = true // entered from outside the drain loop (possibly once per outer iteration)
 			} else {
 				stepOne = false
 			}
@@ -417,6 +438,15 @@ func c02Drain(r *core.Run, a *svcAnchors) {
 		}
 		return core.StateSet(0).Add(s)
 	}
+	// leaving the drain loop ends the counting (the loop may be entered again by an enclosing loop)
+	fl.Branch = func(iff *ssa.If, succ int, s int) (int, bool) {
+		if iff.Block() == phi.Block() && !loop[iff.Block().Succs[succ]] {
+			if s == zero || s == one {
+				return ent, true
+			}
+		}
+		return s, true
+	}
 	res := fl.Run()
 	bad := false
 	for _, b := range fn.Blocks {
@@ -468,15 +498,30 @@ func c02Listener(r *core.Run, rule string, a *svcAnchors, root []*ssa.Function) 
 		}
 	}
 	var listener *ssa.Function
+	inlined := false // the receive loop is written out in serve itself
 	for _, c := range callsTo(root, h) {
 		l := c.Parent()
-		// must range over a channel: contains a receive
+		// must range over a channel: contains a receive on its channel parameter, or (loop written
+		// out in serve) on the very channel value serve stores as the in-channel
 		recv := false
 		for _, b := range l.Blocks {
 			for _, in := range b.Instrs {
-				if u, ok := in.(*ssa.UnOp); ok && u.Op == token.ARROW {
-					if _, isParam := u.X.(*ssa.Parameter); isParam {
-						recv = true
+				u, ok := in.(*ssa.UnOp)
+				if !ok || u.Op != token.ARROW {
+					continue
+				}
+				if _, isParam := u.X.(*ssa.Parameter); isParam {
+					recv = true
+				}
+				if l == a.Serve {
+					for _, b2 := range l.Blocks {
+						for _, in2 := range b2.Instrs {
+							if st, ok := in2.(*ssa.Store); ok {
+								if f, ok := core.FieldOf(st.Addr); ok && f == a.InCh && st.Val == u.X {
+									recv, inlined = true, true
+								}
+							}
+						}
 					}
 				}
 			}
@@ -487,6 +532,11 @@ func c02Listener(r *core.Run, rule string, a *svcAnchors, root []*ssa.Function) 
 	}
 	if listener == nil {
 		r.Bad(rule, core.FuncName(h), "has-listener", p.Pos(h.Pos()), "the message handler has no static caller")
+		return
+	}
+	if inlined {
+		r.OK(rule, core.FuncName(listener), "listener-started-by-plain-call-on-in-channel", p.Pos(listener.Pos()), "the receive loop is part of serve and ranges over the channel value stored as the in-channel")
+		r.Check(len(callsTo(root, h)) == 1, rule, core.FuncName(listener), "single-listener", p.Pos(listener.Pos()), "exactly one receive loop handles requests", "several loops handle requests: two listeners would interleave submissions")
 		return
 	}
 	n := 0
@@ -549,42 +599,81 @@ func c02With(r *core.Run, a *svcAnchors, root []*ssa.Function) {
 			r.Check(errNil && !resNil, "W1", core.FuncName(resFn), "return:handler->resource:"+returnDesc(ret, conds), p.InstrPos(ret), "matching handler: resource and nil error", "a matched resource is returned with an error, or nil without one")
 		}
 	}
-	// With
-	fl := &core.Flow{Fn: with, Entry: core.StateSet(0).Add(0)}
+	// With: typestate (number of enqueues) x (what is known about Resource's error)
+	var errVal ssa.Value
+	for _, c := range core.Calls(with) {
+		if c.Common().StaticCallee() == resFn && c.Value() != nil && c.Value().Referrers() != nil {
+			for _, rf := range *c.Value().Referrers() {
+				if ex, ok := rf.(*ssa.Extract); ok && ex.Index == 1 {
+					errVal = ex
+				}
+			}
+		}
+	}
+	if errVal == nil {
+		r.Bad("W1", core.FuncName(with), "tests-Resource-error", p.Pos(with.Pos()), "With does not obtain the resource through Resource() / ignores its error")
+		return
+	}
+	const (
+		esUnknown = 0
+		esNil     = 1
+		esErr     = 2
+	)
+	fl := &core.Flow{Fn: with, Entry: core.StateSet(0).Add(0), Inline: p.IsPrivateHelper}
 	fl.Transfer = func(in ssa.Instruction, s int) core.StateSet {
 		if c, ok := in.(*ssa.Call); ok && c.Common().StaticCallee() == a.Enqueue {
-			if s < 2 {
+			if s%3 < 2 {
 				s++
 			}
 		}
 		return core.StateSet(0).Add(s)
 	}
+	fl.Branch = func(iff *ssa.If, succ int, s int) (int, bool) {
+		ci := core.Cond(iff.Cond)
+		if ci.Kind != "nilcmp" || ci.X != errVal {
+			return s, true
+		}
+		truth := succ == 0
+		if ci.Negate {
+			truth = !truth
+		}
+		es := esErr
+		if (ci.Op == token.EQL) == truth {
+			es = esNil
+		}
+		return s%3 + 3*es, true
+	}
 	res := fl.Run()
 	for _, ret := range core.Returns(with) {
 		st := res.Before[ret]
-		errEdge := false
+		if st.Empty() {
+			continue
+		}
 		var conds []string
 		for _, ed := range dominatingEdges(ret) {
-			d := describeCond(ed)
-			conds = append(conds, d)
-			if strings.HasSuffix(d, "!=nil") && strings.Contains(d, "extract") {
-				errEdge = true
+			conds = append(conds, describeCond(ed))
+		}
+		retNil := isNilConst(ret.Results[0])
+		retErr := ret.Results[0] == errVal
+		good, why := true, ""
+		sawOK, sawErr := false, false
+		for _, x := range st.List() {
+			enq, es := x%3, x/3
+			switch {
+			case es == esNil && enq == 1 && (retNil || retErr):
+				sawOK = true
+			case es == esErr && enq == 0 && retErr:
+				sawErr = true
+			default:
+				good = false
+				why = fmt.Sprintf("a path with Resource-error=%s reaches this return after %d enqueue(s), returning %s", []string{"untested", "nil", "non-nil"}[es], enq, valDesc(ret.Results[0]))
 			}
 		}
-		retNil := false
-		if c, ok := ret.Results[0].(*ssa.Const); ok && c.IsNil() {
-			retNil = true
+		if sawErr || !good && !sawOK {
+			r.Check(good, "W1", core.FuncName(with), "return:error-edge", p.InstrPos(ret), "no-handler: returns Resource's error, nothing enqueued", "the error edge of With enqueues the callback or does not return Resource's error: "+why)
 		}
-		if errEdge {
-			isErr := false
-			if ex, ok := ret.Results[0].(*ssa.Extract); ok && ex.Index == 1 {
-				if c, ok := ex.Tuple.(*ssa.Call); ok && c.Common().StaticCallee() == resFn {
-					isErr = true
-				}
-			}
-			r.Check(st.Only(0) && isErr, "W1", core.FuncName(with), "return:error-edge", p.InstrPos(ret), "no-handler: returns Resource's error, nothing enqueued", "the error edge of With enqueues the callback or does not return Resource's error")
-		} else {
-			r.Check(st.Only(1) && retNil, "W1", core.FuncName(with), "return:ok-edge:"+returnDesc(ret, conds), p.InstrPos(ret), "handler found: enqueued exactly once, nil returned", fmt.Sprintf("the success edge of With enqueues %v times or returns non-nil", st.List()))
+		if sawOK || !good && !sawErr {
+			r.Check(good, "W1", core.FuncName(with), "return:ok-edge:"+returnDesc(ret, conds), p.InstrPos(ret), "handler found: enqueued exactly once, nil returned", "the success edge of With does not enqueue exactly once / return nil: "+why)
 		}
 	}
 }
@@ -619,4 +708,26 @@ func cbParamIn(p *core.Prog, fn, enqueue *ssa.Function, cb *ssa.Parameter, depth
 		}
 	}
 	return nil
+}
+
+// naturalLoop returns the blocks of the natural loop(s) with header h: h and
+// every block from which a back edge source of h is reachable without passing h.
+func naturalLoop(h *ssa.BasicBlock) map[*ssa.BasicBlock]bool {
+	in := map[*ssa.BasicBlock]bool{h: true}
+	var st []*ssa.BasicBlock
+	for _, p := range h.Preds {
+		if h.Dominates(p) {
+			st = append(st, p)
+		}
+	}
+	for len(st) > 0 {
+		x := st[len(st)-1]
+		st = st[:len(st)-1]
+		if in[x] {
+			continue
+		}
+		in[x] = true
+		st = append(st, x.Preds...)
+	}
+	return in
 }
